@@ -1230,7 +1230,16 @@ func (w *_assembler) AssignNode(node datamodel.Node) error {
 	if uintNode, ok := node.(datamodel.UintNode); ok {
 		return w.assignUInt(uintNode)
 	}
-	return datamodel.Copy(node, w)
+	if err := datamodel.Copy(node, w); err != nil {
+		// A refused value must leave no trace: the copy may have got part of the way
+		// (entries of a map or list before the one that was refused),
+		// and a later BeginMap or BeginList on this assembler would build on top of that.
+		if w.val.CanSet() {
+			w.val.Set(reflect.Zero(w.val.Type()))
+		}
+		return err
+	}
+	return nil
 }
 
 func (w *_assembler) Prototype() datamodel.NodePrototype {
